@@ -14,7 +14,8 @@
 From PV Require Proofs.LexerChunk.
 From PV Require Import Base.Prelude Spec.LuaLex Instances.HoldsC02 Instances.HoldsC01
   Generated.T_lexer Generated.T_luanames Model.NameFactory Model.Lexer Model.TokWriters
-  Proofs.LuaLexFacts Proofs.TokWritersProofs Proofs.MinifyRelex Proofs.MinifyRelations Proofs.MinifyEndToEnd Proofs.MinifyCount.
+  Proofs.LuaLexFacts Proofs.TokWritersProofs Proofs.MinifyRelex Proofs.MinifyRelations Proofs.MinifyEndToEnd Proofs.MinifyCount Proofs.MinifyChunks.
+From PV Require Proofs.LexerChunkNl.
 
 (* the writer never raises *)
 Theorem C01_minify_total : forall cfg ts, exists chunks, minify cfg ts = Ok chunks.
@@ -119,6 +120,52 @@ Theorem C01_string_reencode : forall q data R, q = 34 \/ q = 39 ->
 Proof. exact string_reencode. Qed.
 Print Assumptions C01_string_reencode.
 
+(* ---------- per-line chunks (R4): every single-chunk theorem above, for the source as the .p8 reader and
+   Lua.from_lines feed it to the lexer.  C01_lines / C01_lines_total / C01_cart_text above already cover
+   holds_C01 / holds_C19; here also under the names of the single-chunk theorems, and the relational statement,
+   the token count and the identifiers ---------- *)
+Theorem C01_end_to_end_chunks : forall cfg ls ss,
+  Forall LexerChunk.ends_lf (removelast ls) -> Forall byte (concat ls) -> spec_toks (concat ls) = Some ss ->
+  exists out, luamin_text cfg ls = Ok out /\ holds_C01 (concat ls) out = true /\ holds_C19 (concat ls) out = true.
+Proof. exact luamin_lines. Qed.
+Print Assumptions C01_end_to_end_chunks.
+
+Theorem C01_luamin_preserves_chunks : forall cfg ls ss,
+  Forall LexerChunk.ends_lf (removelast ls) -> Forall byte (concat ls) -> spec_toks (concat ls) = Some ss ->
+  exists ts chunks ss', model_lex ls = Ok ts /\ minify cfg ts = Ok chunks /\ luamin_text cfg ls = Ok (concat chunks) /\
+    spec_toks (concat chunks) = Some ss'
+    /\ all2 same_view (sig_toks ss) (sig_toks ss') = true
+    /\ run_factory cfg (ident_names (sig_toks ss)) = Ok (ident_names (sig_toks ss'))
+    /\ line_groups ss' = line_groups ss
+    /\ spec_count ss' = spec_count ss.
+Proof. exact (fun cfg ls ss H => luamin_chunks_preserves cfg ls ss (lines_same_as_joined ls H)). Qed.
+Print Assumptions C01_luamin_preserves_chunks.
+
+Theorem C01_stats_count_chunks : forall cfg ls ss,
+  Forall LexerChunk.ends_lf (removelast ls) -> Forall byte (concat ls) -> spec_toks (concat ls) = Some ss ->
+  exists ts out ts', model_lex ls = Ok ts /\ luamin_text cfg ls = Ok out /\ model_lex [out] = Ok ts' /\
+    token_count ts' = token_count ts.
+Proof. exact luamin_lines_count. Qed.
+Print Assumptions C01_stats_count_chunks.
+
+Theorem C01_identifiers_C02_chunks : forall cfg ls ss,
+  Forall LexerChunk.ends_lf (removelast ls) -> Forall byte (concat ls) -> spec_toks (concat ls) = Some ss ->
+  exists out ss', luamin_text cfg ls = Ok out /\ spec_toks out = Some ss' /\
+    length (sig_toks ss') = length (sig_toks ss) /\
+    holds_C02 (keep_all cfg) (keep_list cfg) preserved_names
+      (ident_names (sig_toks ss)) (ident_names (sig_toks ss')) = true.
+Proof. exact (fun cfg ls ss H => luamin_chunks_identifiers cfg ls ss (lines_same_as_joined ls H)). Qed.
+Print Assumptions C01_identifiers_C02_chunks.
+
+(* ... and for ANY chunk list that the lexer model reads as it reads the concatenated text - e.g. the line list
+   `build --lua-minify` hands to the final parse, which may contain a separate newline line after a package without
+   final newline (LexerChunkNl.chunk_ok; C14_prepended_lines_chunking proves it of that list) *)
+Theorem C01_end_to_end_chunk_ok : forall cfg ls ss,
+  LexerChunkNl.chunk_ok ls -> Forall byte (concat ls) -> spec_toks (concat ls) = Some ss ->
+  exists out, luamin_text cfg ls = Ok out /\ holds_C01 (concat ls) out = true /\ holds_C19 (concat ls) out = true.
+Proof. exact (fun cfg ls ss H => luamin_chunks cfg ls ss (chunk_ok_same_as_joined ls H)). Qed.
+Print Assumptions C01_end_to_end_chunk_ok.
+
 (* ---------- non-vacuity ---------- *)
 (* the pairs the writer used to glue (S1), through lexer model + writer model; the hypothesis
    lexer_agrees holds for them *)
@@ -150,4 +197,16 @@ y=2"%bs /\ line_groups ss = [10; 4; 3].
 Proof.
   cbv zeta. eexists. eexists. split; [vm_compute; reflexivity|]. split; [vm_compute; reflexivity|].
   split; vm_compute; reflexivity.
+Qed.
+
+(* per-line chunks: the S1 pairs again, fed line by line (CRLF line ends, last line without newline) *)
+Example C01_chunks_example :
+  let ls := [unBS "a = b - -c"%bs ++ [13; 10]; unBS "x = 1 ..y -- c"%bs ++ [10]; unBS "t[ [[k]] ]=1"%bs] in
+  exists ss, spec_toks (concat ls) = Some ss /\ Forall LexerChunk.ends_lf (removelast ls) /\
+    luamin_text (mk_config false None) ls = Ok (unBS "a=b- -c
+d=1 ..e
+t[ [[k]]]=1"%bs).
+Proof.
+  cbv zeta. eexists. split; [vm_compute; reflexivity|]. split; [|vm_compute; reflexivity].
+  apply ends_lf_check. vm_compute. reflexivity.
 Qed.
